@@ -9,42 +9,57 @@ import (
 )
 
 type inProcessTransport struct {
-	remote  *inProcessTransport // The remote party
-	addr    InProcessAddr
-	envChan chan envelope
-	done    chan bool
-	closed  bool
-	mu      sync.RWMutex
+	remote        *inProcessTransport // The remote party
+	addr          InProcessAddr
+	envChan       chan envelope
+	done          chan struct{} // closed when this end is closed, by either party
+	closed        bool          // this end is closed
+	closedLocally bool          // ... by its own Close
+	mu            sync.RWMutex
 }
 
+// Close closes both ends of the connection.
 func (t *inProcessTransport) Close() error {
+	// One end at a time, never holding both locks: the two parties may close at the same moment
+	t.shut(true)
+	t.remote.shut(false)
+	return nil
+}
+
+func (t *inProcessTransport) shut(locally bool) {
 	t.mu.Lock()
 	defer t.mu.Unlock()
 
+	if locally {
+		t.closedLocally = true
+	}
 	if !t.closed {
 		t.closed = true
-		t.done <- true
-	}
-
-	if !t.remote.closed {
 		// We are not closing the envChan here to avoid panics on Send method
-		return t.remote.Close()
+		close(t.done)
 	}
-
-	return nil
 }
 
-func (t *inProcessTransport) Send(_ context.Context, e envelope) error {
+func (t *inProcessTransport) Send(ctx context.Context, e envelope) error {
 	if t.isClosed() {
 		return errors.New("transport is closed")
 	}
-	t.remote.envChan <- e
-	return nil
+	select {
+	case t.remote.envChan <- e:
+		return nil
+	case <-ctx.Done():
+		return fmt.Errorf("send: %w", ctx.Err())
+	case <-t.done:
+		return errors.New("transport was closed while sending")
+	}
 }
 
 func (t *inProcessTransport) Receive(ctx context.Context) (envelope, error) {
-	// What the remote party sent before the transport was closed is still delivered,
-	// as with a network connection: the last envelope of a session is the one that ends it.
+	if t.isClosedLocally() {
+		return nil, errors.New("transport is closed")
+	}
+	// What the remote party sent before it closed the connection is still delivered, as with a
+	// network connection: the last envelope of a session is the one that ends it.
 	select {
 	case e := <-t.envChan:
 		return e, nil
@@ -74,11 +89,17 @@ func (t *inProcessTransport) isClosed() bool {
 	return t.closed
 }
 
+func (t *inProcessTransport) isClosedLocally() bool {
+	t.mu.RLock()
+	defer t.mu.RUnlock()
+	return t.closedLocally
+}
+
 func newInProcessTransport(addr InProcessAddr, bufferSize int) *inProcessTransport {
 	return &inProcessTransport{
 		addr:    addr,
 		envChan: make(chan envelope, bufferSize),
-		done:    make(chan bool, 1),
+		done:    make(chan struct{}),
 	}
 }
 
@@ -117,8 +138,8 @@ func (t *inProcessTransport) SetEncryption(context.Context, SessionEncryption) e
 func (t *inProcessTransport) Connected() bool {
 	t.mu.RLock()
 	defer t.mu.RUnlock()
-	// Still connected, for the reader, while envelopes received before the close are pending
-	return !t.closed || len(t.envChan) > 0
+	// Still connected, for the reader, while envelopes sent before the remote party closed are pending
+	return !t.closed || (!t.closedLocally && len(t.envChan) > 0)
 }
 
 func (t *inProcessTransport) LocalAddr() net.Addr {
